@@ -37,6 +37,7 @@ FIXES = {  # subject prefix -> properties whose check must fire when the fix is 
     "fix: store names": ["C29"],
     "fix: computing mixed": ["C14"],
     "fix: cycle reporting": ["C07"],
+    "fix: delayed attribute": ["C15"],
 }
 
 
